@@ -1137,6 +1137,19 @@ class BlockwiseRequest(BaseUnicastRequest, interfaces.Request):
                 )
                 return last_response
 
+            if last_response.code != assembled_response.code:
+                # Typically an error: the server gave up on the transfer (the
+                # resource vanished, a back end became unavailable). Whatever
+                # this response carries is no part of the representation
+                # assembled so far, even if it is labelled with a Block2
+                # option.
+                log.warning(
+                    "Server answered a later block with a different code (%s after %s). Blockwise transfer cancelled, accepting single response.",
+                    last_response.code,
+                    assembled_response.code,
+                )
+                return last_response
+
             block2 = last_response.opt.block2
             log.debug(
                 "Response with Block2 option received, number = %d, more = %d, size_exp = %d.",
